@@ -77,6 +77,10 @@ func init() {
 				n += runAs(c, "C05.R10", c19R4, nil)
 				c.R.Floor("C05.R10", n, 4)
 			}},
+			{ID: "C05.R11", Doc: "the From-constructors store what Add would store: one conversion per entry, in order (= C12.R2), so every cell of a constructed list holds a field and Get/TypeOf are defined on every in-range index", Run: func(c *Ctx) {
+				c.R.Floor("C05.R11", runAs(c, "C05.R11", c12R2, func(o *Obligation) bool { return strings.Contains(o.Construct, "NewListFrom") }), 7)
+			}},
+			{ID: "C05.R12", Doc: "elements are replaced, never rewritten: scalar wrappers are immutable after construction (= C09.R5), so an element shared with a derived list keeps its value when the other list is written", Run: func(c *Ctx) { c09Immutable(c, "C05.R12") }},
 			{ID: "C05.R9", Doc: "NewListOf(v, n): v is normalised once, before the loop, and that one field is installed n times (n aliases of one element, not n conversions)", Run: c05ListOf},
 			{ID: "C05.R8", Doc: "Reverse moves element i to n-1-i in place (= C17.R2)", Run: func(c *Ctx) { reverseRule(c, "C05.R8") }},
 			{ID: "C05.R7", Doc: "PURE: the observers (and SubList, Concat) write nothing pre-existing", Run: func(c *Ctx) {
@@ -202,6 +206,9 @@ func c05Delete(c *Ctx, fd *ast.FuncDecl) {
 		return
 	}
 	// order: positions are processed from the back (after the ascending sort), so that earlier removals do not shift later indexes
+	if cl := v.asCounted(loop); cl != nil {
+		loop = cl // `for i := range indexes { … indexes[last-i] … }`: the counting loop it is
+	}
 	if loop.For != nil {
 		// the position read from the index list, per iteration, for 0..4 indexes (header simulated): m-1, m-2, …, 0
 		var posT Term
